@@ -75,7 +75,7 @@ DavHits(e) ==
                     \cup If(\A i \in 1 .. Len(e.qnx) : QLe(e.qnx[i], QC + e.qn + EPSD), "UnitNorm")
                     \cup If(QLe(e.qorth, QC + e.qn + EPSD + 96), "Orthonormal")
                     \cup If(OrderedKeys(e.rule, DavKeys(e)), "OrderedByRule")
-                    \cup (IF Cardinality(DavWanted(e)) = e.nev
+                    \cup (IF Cardinality(DavWanted(e)) = e.nev /\ e.sep = 1
                           THEN If({e.ridx[i] : i \in 1 .. Len(e.ridx)} = DavWanted(e), "ReturnedIsWanted") ELSE {})
                ELSE {})
 
